@@ -23,8 +23,19 @@ def _run(ctx):
     if n == 0:
         raise lib.ToolError("no behaviours exported by Gen_Delta")
     res = lib.vh(ctx, "delta", beh, props=[pid],
-                 opts={"all_dicts": "1"} if (ctx.thorough or ctx.replay) else None)
+                 opts={"all_dicts": "1"} if (ctx.thorough or ctx.replay) else None, cacheable=True)
     r = res["per_property"][pid]
+    if pid == "C12" and not ctx.replay:
+        # longer histories: merged deltas are merged again (hidden ASPA bookkeeping)
+        gen2 = lib.tlc(ctx, "genseq", "Gen_DeltaSeq.tla", "Gen_DeltaSeq.cfg", workers=4, timeout=2400, count=False)
+        beh2 = ctx.path("sequences.ndjson")
+        n2 = lib.extract_replays(gen2["out"], beh2)
+        if n2 == 0:
+            raise lib.ToolError("no sequences exported by Gen_DeltaSeq")
+        res2 = lib.vh(ctx, "delta", beh2, props=[pid], out_name="deltaseq", cacheable=True,
+                      opts={"all_dicts": "1"} if ctx.thorough else None)
+        r = lib.merge_results(r, res2["per_property"][pid])
+        ctx.extra["sequences_exported"] = n2
     ctx.assumptions += [
         "abstract items are ranks into three concrete dictionaries sorted with the real Ord "
         "(mixed address families, same-prefix items differing in max-length/ASN, extreme ASNs)",
@@ -59,8 +70,8 @@ CHECKS = {
         "run": _run, "engine": "Delta",
         "technique": "TLA+ model (Delta.tla) checked exhaustively by TLC; all exported triples replayed into PayloadDelta::merge",
         "level_text": "Exhaustive over all triples of data sets of the universe (covers add-then-remove, remove-then-re-add, ASPA "
-                      "change-and-change-back); TLC additionally shows merged deltas are internally equal to constructed ones for "
-                      "histories up to length 3, so triples generalise to longer merges.",
+                      "change-and-change-back) and over all sequences of five data sets of a ten-set universe (merges of merged deltas, "
+                      "which exercise the hidden ASPA bookkeeping); TLC shows merged deltas internally equal constructed ones.",
         "level_note": _NOTE, "design_ref": "4/C12",
     },
 }
